@@ -220,9 +220,64 @@ def eval_polars(case):
     return ev
 
 
+# ------------------------------------------------------------------- index_entries family
+
+
+@st.composite
+def strat_index_entries(draw):
+    return {"container": draw(st.sampled_from(["series", "frame"])), "multi": draw(st.booleans()),
+            "text": [draw(st.booleans()), draw(st.booleans())], "fail": draw(st.sampled_from(["no", "no", "check", "unique"])),
+            "lazy": draw(st.booleans()), "coerce_at": draw(st.sampled_from(["component", "levels"])),
+            "values": draw(st.lists(st.integers(0, 5), min_size=1, max_size=4))}
+
+
+def eval_index_entries(case):
+    """standalone pa.Index(...).validate(obj) / pa.MultiIndex(...).validate(obj) on a Series or a DataFrame whose index
+    arrives as text and is coerced: pass or fail, eager or lazy, the caller's object keeps the index it had."""
+    import pandas as pd
+    import pandera as pa
+
+    ev = Eval()
+    vals = case["values"]
+    lv0 = [str(v) for v in vals] if case["text"][0] else list(vals)
+    lv1 = [str(v * 10) for v in vals] if case["text"][1] else [v * 10 for v in vals]
+    checks = [pa.Check.ge(max(vals) + 1)] if case["fail"] == "check" else []
+    unique = case["fail"] == "unique"
+    on_levels = case["coerce_at"] == "levels"
+    if case["multi"]:
+        schema = pa.MultiIndex([pa.Index(int, name="i", checks=checks, unique=unique, coerce=on_levels),
+                                pa.Index(int, name="j", coerce=on_levels)], coerce=not on_levels)
+        index = pd.MultiIndex.from_arrays([pd.Index(lv0, dtype=object if case["text"][0] else "int64"),
+                                           pd.Index(lv1, dtype=object if case["text"][1] else "int64")], names=["i", "j"])
+    else:
+        schema = pa.Index(int, name="i", checks=checks, unique=unique, coerce=True)
+        index = pd.Index(lv0, dtype=object if case["text"][0] else "int64", name="i")
+    body = [float(v) for v in vals]
+    data = pd.Series(body, index=index, name="x") if case["container"] == "series" else pd.DataFrame({"x": body}, index=index)
+    really_fails = case["fail"] == "check" or (unique and len(set(vals)) != len(vals))
+    ev.labels += ["container=" + case["container"], "multi" if case["multi"] else "single",
+                  "text-level" if any(case["text"][: 2 if case["multi"] else 1]) else "typed",
+                  "fails" if really_fails else "passes", "lazy" if case["lazy"] else "eager"]
+    ev.nontrivial = any(case["text"][: 2 if case["multi"] else 1])
+    before = fp.snapshot(data)
+    o = fp.outcome(lambda: schema.validate(data, lazy=case["lazy"]))
+    ev.labels.append("outcome=" + o["kind"])
+    if o["kind"] in ("internal", "usage"):
+        ev.labels.append("internal-exception")
+        return ev
+    after = fp.snapshot(data)
+    if after != before:
+        ev.add(f"caller-data-modified:{'multiindex' if case['multi'] else 'index'}-entry:{case['container']}:{o['kind']}",
+               {"diff": fp.fp_diff(before, after)[:4], "lazy": case["lazy"]})
+    return ev
+
+
 FAMILIES = [
     Family("pandas", evaluate, strategy=strategy, n_quick=1200, n_thorough=5000, shards_quick=4, shards_thorough=16,
            required_labels=["entry=column", "entry=index", "kind=series", "outcome=SchemaError", "outcome=SchemaErrors",
                             "outcome=ok", "op=coerce", "op=default"]),
     Family("polars", eval_polars, strategy=strat_polars, n_quick=800, n_thorough=4000, shards_quick=2, shards_thorough=8),
+    Family("index_entries", eval_index_entries, strategy=strat_index_entries, n_quick=300, n_thorough=1500, shards_quick=2,
+           shards_thorough=4, required_labels=["container=series", "container=frame", "multi", "single", "fails", "passes",
+                                               "text-level"]),
 ]
